@@ -424,6 +424,17 @@ def dS_shared(ctx):
                             'the second destriping call works with filter tables the first one modified')
 
 
+def d7_header_untouched(ctx):
+    ctx.rule("D7", "the ADC-delay vector of the trace header survives a call: fshift never writes into storage shared with its shift argument, destripe never stores into h")
+    from rules import C07
+    repo = ctx.repo
+    ff = repo.fn("ibldsp.fourier.fshift")
+    C07.args_untouched(ctx, ff, [p_ for p_ in ff.params[1:]], rule="D7")
+    fd = repo.fn("ibldsp.voltage.destripe")
+    if "h" in fd.params:
+        C07.args_untouched(ctx, fd, ["h"], rule="D7")
+
+
 def run(ctx):
     ctx.run(dS_shared)
     ctx.run(d6_explicit_settings)
@@ -432,3 +443,4 @@ def run(ctx):
     ctx.run(d3_outside_brain)
     ctx.run(d4_car_table)
     ctx.run(d5_agc)
+    ctx.run(d7_header_untouched)
